@@ -2,9 +2,12 @@ package bkl
 
 import (
 	"bytes"
+	"errors"
 	"fmt"
+	"io"
 	"regexp"
 	"strconv"
+	"strings"
 
 	"gopkg.in/yaml.v3"
 )
@@ -71,25 +74,45 @@ func yamlUnmarshalStream(in []byte) ([]any, error) {
 	ret := []any{}
 
 	for i, s := range parts {
-		var node yaml.Node
+		// A part may itself hold several documents: markers the split does
+		// not recognize ("--- # comment", "--- " with trailing blanks, CRLF
+		// line endings). Decode all of them rather than only the first.
+		dec := yaml.NewDecoder(strings.NewReader(s))
+		count := 0
 
-		err := yaml.Unmarshal([]byte(s), &node)
-		if err != nil {
-			return nil, err
+		for {
+			var node yaml.Node
+
+			err := dec.Decode(&node)
+			if errors.Is(err, io.EOF) {
+				break
+			}
+
+			if err != nil {
+				return nil, err
+			}
+
+			obj, err := yamlTranslateNode(&node, 0)
+			if err != nil {
+				return nil, err
+			}
+
+			ret = append(ret, obj)
+			count++
 		}
 
-		if i == 0 && len(parts) > 1 && node.Kind == 0 {
+		if count > 0 {
+			continue
+		}
+
+		if i == 0 && len(parts) > 1 {
 			// A stream that starts with the document start marker (possibly
 			// after comments): there is no document before the first "---".
 			continue
 		}
 
-		obj, err := yamlTranslateNode(&node, 0)
-		if err != nil {
-			return nil, err
-		}
-
-		ret = append(ret, obj)
+		// An empty part is an empty document.
+		ret = append(ret, nil)
 	}
 
 	return ret, nil
